@@ -58,11 +58,11 @@ def run_engine(tier, cli_every=0, inline_updown=False):
             raise vf.Infra("engine harness failed: " + p.stderr[-2000:])
         info = json.loads(p.stdout)
         if cli_every and os.path.exists(out + ".cli"):
-            cv, _, _ = vf.monitor_trace("EngineTrace", "EngineTrace.cfg", out + ".cli", max_events=300)
+            cv, _, _ = vf.monitor_trace("EngineTrace", "EngineTrace.cfg", out + ".cli", max_events=300, independent=True)
             info["cli"] = (cv, [json.loads(x) for x in open(out + ".cli.full").read().split("\n") if x])
         if info["skipped"] > n // 10:
             raise vf.Infra("the harness could not create %d of %d start states: %s" % (info["skipped"], n, info["skip_reasons"]))
-        viols, events, _ = vf.monitor_trace("EngineTrace", "EngineTrace.cfg", out, max_events=300)
+        viols, events, _ = vf.monitor_trace("EngineTrace", "EngineTrace.cfg", out, max_events=300, independent=True)
         full = [json.loads(x) for x in open(out + ".full").read().split("\n") if x]
         return viols, full, n, info
     finally:
